@@ -325,7 +325,7 @@ Definition binop_rank (o : binop) : Z :=
 Definition ctor_rank (e : expr) : Z :=
   match e with ECol _ => 1 | ELit _ => 0 | EBin _ _ _ => 2 | ENot _ => 3 | ENeg _ => 4 | EIsNull _ => 5
              | EIf _ _ _ => 6 | ECoalesce _ _ => 7 end.
-Definition lex (c d : comparison) : comparison := match c with Datatypes.Eq => d | _ => c end.
+Definition lexc (c d : comparison) : comparison := match c with Datatypes.Eq => d | _ => c end.
 Definition lit_rank (a : val) : Z :=
   match a with VNull => 0 | VBool _ => 1 | VInt _ => 2 | VRat _ _ => 3 | VStr _ => 4 end.
 Definition lit_cmp (a b : val) : comparison :=
@@ -333,7 +333,7 @@ Definition lit_cmp (a b : val) : comparison :=
   | VInt x, VInt y => Z.compare x y
   | VStr x, VStr y => String.compare x y
   | VBool x, VBool y => Z.compare (if x then 1 else 0) (if y then 1 else 0)
-  | VRat n d, VRat m e => lex (Z.compare n m) (Pos.compare d e)
+  | VRat n d, VRat m e => lexc (Z.compare n m) (Pos.compare d e)
   | _, _ => Z.compare (lit_rank a) (lit_rank b)
   end.
 Fixpoint expr_cmp (a b : expr) : comparison :=
@@ -341,12 +341,12 @@ Fixpoint expr_cmp (a b : expr) : comparison :=
   | ECol x, ECol y => String.compare x y
   | ELit x, ELit y => lit_cmp x y
   | EBin o a1 a2, EBin p b1 b2 =>
-      lex (Z.compare (binop_rank o) (binop_rank p)) (lex (expr_cmp a1 b1) (expr_cmp a2 b2))
+      lexc (Z.compare (binop_rank o) (binop_rank p)) (lexc (expr_cmp a1 b1) (expr_cmp a2 b2))
   | ENot x, ENot y => expr_cmp x y
   | ENeg x, ENeg y => expr_cmp x y
   | EIsNull x, EIsNull y => expr_cmp x y
-  | EIf c1 t1 e1, EIf c2 t2 e2 => lex (expr_cmp c1 c2) (lex (expr_cmp t1 t2) (expr_cmp e1 e2))
-  | ECoalesce a1 a2, ECoalesce b1 b2 => lex (expr_cmp a1 b1) (expr_cmp a2 b2)
+  | EIf c1 t1 e1, EIf c2 t2 e2 => lexc (expr_cmp c1 c2) (lexc (expr_cmp t1 t2) (expr_cmp e1 e2))
+  | ECoalesce a1 a2, ECoalesce b1 b2 => lexc (expr_cmp a1 b1) (expr_cmp a2 b2)
   | _, _ => Z.compare (ctor_rank a) (ctor_rank b)
   end.
 Definition expr_leb (a b : expr) : bool := match expr_cmp a b with Datatypes.Gt => false | _ => true end.
